@@ -237,6 +237,43 @@ def check(prog, rep):
                    loc=f"{fi.module.rel}:{c.lineno}", detail=f"pairing:{src(a0)}~{src(a2)}"[:80])
         if n_mk < 3:
             raise AnalysisError(f"{fi.name}: fewer than 3 _make_constraint sites")
+        # one constraint per element: index loops range over the full element grid
+        for c in calls(fi.node, local=False):
+            if dotted(c.func) != "_make_constraint":
+                continue
+            idx = [x for x in ast.walk(c.args[0]) if isinstance(x, ast.Subscript)]
+            if not idx:
+                continue
+            names = sorted({n.id for sub in idx for n in ast.walk(sub.slice) if isinstance(n, ast.Name)})
+            loops = {}
+            p_ = getattr(c, "_parent", None)
+            while p_ is not None and p_ is not fi.node:
+                if isinstance(p_, ast.For):
+                    loops[src(p_.target)] = p_.iter
+                p_ = getattr(p_, "_parent", None)
+            full = True
+            why = ""
+            for nm in names:
+                it = loops.get(nm)
+                if it is None:
+                    # tuple target `for i, j in positions`
+                    tup = [k for k in loops if nm in [x.strip() for x in k.strip("()").split(",")]]
+                    if not tup:
+                        raise AnalysisError(f"{fi.name}: loop binding index {nm} not found")
+                    it = loops[tup[0]]
+                    vals = local_assignments(fi.node).get(src(it), []) if isinstance(it, ast.Name) else []
+                    comps = [v for v in vals if isinstance(v, ast.ListComp)]
+                    if not comps:
+                        raise AnalysisError(f"{fi.name}: index pairs `{src(it)}` not interpretable")
+                    for comp in comps:
+                        for g in comp.generators:
+                            if not (isinstance(g.iter, ast.Call) and dotted(g.iter.func) == "range" and len(g.iter.args) == 1) or g.ifs:
+                                full = False
+                                why = f"index pairs come from `{src(comp)[:70]}`"
+                elif not (isinstance(it, ast.Call) and dotted(it.func) == "range" and len(it.args) == 1):
+                    full = False
+                    why = f"index {nm} ranges over `{src(it)[:40]}`"
+            rep.ob("R10.3", fi.name, full, "indices range over the full element grid (one constraint per element)" if full else f"not every element gets its constraint: {why}; elements outside that range (e.g. the lower triangle of a symmetric matrix compared with a non-symmetric right-hand side) are silently unconstrained", loc=f"{fi.module.rel}:{c.lineno}", detail=f"full-grid:{src(c.args[2])[:30] if len(c.args) > 2 else ''}")
 
     # ------------------------------------------------------------------ R10.4
     bsc = [f for f in prog.functions.values() if f.module.name == "optyx.solvers.scipy_solver" and any(isinstance(n, ast.Dict) and {"type", "fun"} <= {k.value for k in n.keys if isinstance(k, ast.Constant)} for n in ast.walk(f.node))]
